@@ -85,12 +85,15 @@ def case_s(draw):
     segs = draw(st.one_of(st.just([1000000]), st.lists(st.integers(1, 3000), min_size=1, max_size=30),
                           st.lists(st.integers(1, 9), min_size=5, max_size=50)))
     leading_blank = draw(st.sampled_from([b"", b"", b"\r\n"]))
+    # two or more empty lines in front of the request (accepting or rejecting them is the reader's choice, but they
+    # must never switch the header limit off); not counted in the header block
+    pre_blank = draw(st.sampled_from([b"", b"", b"", b"", b"\r\n\r\n", b"\n\n", b"\r\n\r\n\r\n", b"\r\n\n"]))
     gz_variant = draw(st.sampled_from(["plain", "plain", "plain", "multi_member", "truncated"]))
     noise = draw(st.binary(min_size=16, max_size=64))
     return dict(L=L, M=M, B=B, override=override, chunk_size=chunk_size, framing=framing, decompress=decompress,
                 size_rel=size_rel, hdr_rel=hdr_rel, split=split, split_mode=split_mode, fill=fill,
                 incompressible=incompressible, follow_rel=follow_rel, segs=segs, leading_blank=leading_blank,
-                gz_variant=gz_variant, noise=noise)
+                pre_blank=pre_blank, gz_variant=gz_variant, noise=noise)
 
 
 def make_body(n, fill, incompressible, noise):
@@ -283,8 +286,19 @@ def run_server(case, data):
 
 def run_case(ctx, case):
     data, exp = build(case)
+    pre_blank = case.get("pre_blank") or b""
+    if pre_blank:
+        data = pre_blank + data
+        if case["hdr_rel"] == "2L" and case["L"] is not None:
+            exp["verdict"] = "header_over"  # far beyond the limit whatever is counted
+        elif exp["verdict"] != "header_over":
+            exp["verdict"] = "multi_blank_either"
+        else:
+            exp["verdict"] = "multi_blank_either" if case["hdr_rel"] != "2L" else "header_over"
     records, wire, closed, logs = run_server(case, data)
     labels = set()
+    if pre_blank:
+        labels.add("two_or_more_leading_blank_lines")
     info = {"limits": {k: case[k] for k in ("L", "M", "B", "override", "chunk_size", "decompress")},
             "framing": case["framing"], "verdict": exp["verdict"], "block_len": exp["block_len"],
             "wire_n": exp["wire_n"], "decoded_n": len(exp["decoded"]), "lim": exp["lim"],
@@ -352,6 +366,10 @@ def run_case(ctx, case):
                     ctx.fail("C04.override_outlived_its_request", dict(info, follow_n=f["n"], base_lim=exp["base_lim"]))
                 if codes[1:] not in ([400], []):
                     ctx.fail("C04.status_after_refusal_not_400", dict(info, codes=codes))
+    elif verdict == "multi_blank_either":
+        # the reader may refuse the empty lines (400/close) or skip them; only the universal bound (a) applies
+        if main and not exp["decoded"].startswith(b"".join(main[0]["chunks"])):
+            ctx.fail("C04.decoded_bytes_not_a_prefix", info)
     else:
         labels.add("either_gzip_truncated_or_multimember")
         if main and not exp["decoded"].startswith(b"".join(main[0]["chunks"])):
